@@ -195,7 +195,9 @@ type row struct {
 }
 
 type mismatch struct {
-	Sig   string `json:"sig"`
+	Sig    string          `json:"sig"`
+	WantOk bool            `json:"wantok"`
+	Row    json.RawMessage `json:"row,omitempty"`
 	What  string `json:"what"`
 	S     string `json:"s"`
 	Mode  int    `json:"mode"`
@@ -221,16 +223,19 @@ type report struct {
 	MismatchCnt int            `json:"mismatch_count"`
 	bySig       map[string]*mismatch
 	allocBad    map[string]int
+	curRow      []byte
 }
 
-func (r *report) bad(sig, what, s string, mode int, b []int, v any, want, got any) {
+// bad records a disagreement; wantOk: the model accepts the input (a valid encoding / an encodable value).
+func (r *report) bad(sig, what, s string, mode int, b []int, v any, want, got any, wantOk bool) {
 	r.MismatchCnt++
-	if m, ok := r.bySig[sig]; ok {
+	key := fmt.Sprintf("%s|%t", sig, wantOk)
+	if m, ok := r.bySig[key]; ok {
 		m.Count++
 		return
 	}
-	m := &mismatch{Sig: sig, What: what, S: s, Mode: mode, B: b, V: v, Want: want, Got: got, Count: 1}
-	r.bySig[sig] = m
+	m := &mismatch{Sig: sig, WantOk: wantOk, Row: append(json.RawMessage(nil), r.curRow...), What: what, S: s, Mode: mode, B: b, V: v, Want: want, Got: got, Count: 1}
+	r.bySig[key] = m
 	r.Mismatches = append(r.Mismatches, m)
 }
 
@@ -288,26 +293,26 @@ func (r *report) checkDecode(e *entry, s *Schema, b []byte, mode int, want, want
 	}
 	switch {
 	case o.Panic != "":
-		r.bad(pre+"panic", call+" panicked: "+o.Panic, e.name, mode, ints(b), nil, wantJ, o)
+		r.bad(pre+"panic", call+" panicked: "+o.Panic, e.name, mode, ints(b), nil, wantJ, o, want.Ok)
 		return o
 	case o.Ok && o.N > len(b):
-		r.bad(pre+"over-consumed", fmt.Sprintf("%s reported %d bytes consumed of %d supplied", call, o.N, len(b)), e.name, mode, ints(b), nil, wantJ, o)
+		r.bad(pre+"over-consumed", fmt.Sprintf("%s reported %d bytes consumed of %d supplied", call, o.N, len(b)), e.name, mode, ints(b), nil, wantJ, o, want.Ok)
 	}
 	if o.Alloc > AllocSlack+AllocPerByte*uint64(len(b)) {
 		r.allocBad[e.name]++
-		r.bad(pre+"alloc", fmt.Sprintf("%s allocated %d bytes for %d input bytes (bound %d)", call, o.Alloc, len(b), AllocSlack+AllocPerByte*len(b)), e.name, mode, ints(b), nil, wantJ, o)
+		r.bad(pre+"alloc", fmt.Sprintf("%s allocated %d bytes for %d input bytes (bound %d)", call, o.Alloc, len(b), AllocSlack+AllocPerByte*len(b)), e.name, mode, ints(b), nil, wantJ, o, want.Ok)
 	}
 	switch {
 	case o.Ok && !want.Ok:
-		r.bad(pre+"accepts-invalid", call+" accepted bytes the wire format rejects; value "+canon(o.V), e.name, mode, ints(b), nil, wantJ, o)
+		r.bad(pre+"accepts-invalid", call+" accepted bytes the wire format rejects; value "+canon(o.V), e.name, mode, ints(b), nil, wantJ, o, want.Ok)
 	case !o.Ok && want.Ok && !(mode == 0 && !wantV.Ok):
-		r.bad(pre+"rejects-valid", call+" failed ("+o.Err+") on a valid encoding of "+string(want.V), e.name, mode, ints(b), nil, wantJ, o)
+		r.bad(pre+"rejects-valid", call+" failed ("+o.Err+") on a valid encoding of "+string(want.V), e.name, mode, ints(b), nil, wantJ, o, want.Ok)
 	case o.Ok && want.Ok:
 		r.Accepted[mode]++
 		if o.N != want.N {
-			r.bad(pre+"wrong-length", fmt.Sprintf("%s consumed %d bytes, the encoding has %d", call, o.N, want.N), e.name, mode, ints(b), nil, wantJ, o)
+			r.bad(pre+"wrong-length", fmt.Sprintf("%s consumed %d bytes, the encoding has %d", call, o.N, want.N), e.name, mode, ints(b), nil, wantJ, o, want.Ok)
 		} else if !oos && !sameTree(s, o.V, raw(want.V)) {
-			r.bad(pre+"wrong-value", call+" gave "+canon(o.V)+", the bytes encode "+string(want.V), e.name, mode, ints(b), nil, wantJ, o)
+			r.bad(pre+"wrong-value", call+" gave "+canon(o.V)+", the bytes encode "+string(want.V), e.name, mode, ints(b), nil, wantJ, o, want.Ok)
 		}
 	}
 	// C03 reverse, on the real code alone: accepted with validation => re-encodes to the consumed prefix
@@ -316,7 +321,7 @@ func (r *report) checkDecode(e *entry, s *Schema, b []byte, mode int, want, want
 		r.Reencoded++
 		if !re.Ok || !bytes.Equal(re.B, b[:o.N]) {
 			r.bad(pre+"noncanonical-accepted", fmt.Sprintf("%s accepted %v, but re-encoding the result with validation gives %v %s%s",
-				call, b[:o.N], re.B, re.Err, re.Panic), e.name, mode, ints(b), nil, map[string]any{"b": ints(b[:o.N])}, map[string]any{"ok": re.Ok, "b": ints(re.B), "err": re.Err})
+				call, b[:o.N], re.B, re.Err, re.Panic), e.name, mode, ints(b), nil, map[string]any{"b": ints(b[:o.N])}, map[string]any{"ok": re.Ok, "b": ints(re.B), "err": re.Err}, want.Ok)
 		}
 	}
 
@@ -333,13 +338,13 @@ func (r *report) checkEncode(e *entry, s *Schema, gv reflect.Value, tree any, mo
 	got := map[string]any{"ok": o.Ok, "b": ints(o.B), "err": o.Err, "panic": o.Panic}
 	switch {
 	case o.Panic != "":
-		r.bad(pre+"panic", call+" panicked: "+o.Panic, e.name, mode, nil, tree, wantJ, got)
+		r.bad(pre+"panic", call+" panicked: "+o.Panic, e.name, mode, nil, tree, wantJ, got, want.Ok)
 	case o.Ok && !want.Ok:
-		r.bad(pre+"accepts-invalid", fmt.Sprintf("%s produced %v for a value the format cannot express / the rules forbid", call, o.B), e.name, mode, nil, tree, wantJ, got)
+		r.bad(pre+"accepts-invalid", fmt.Sprintf("%s produced %v for a value the format cannot express / the rules forbid", call, o.B), e.name, mode, nil, tree, wantJ, got, want.Ok)
 	case !o.Ok && want.Ok && !(mode == 0 && !wantV.Ok):
-		r.bad(pre+"rejects-valid", call+" failed: "+o.Err, e.name, mode, nil, tree, wantJ, got)
+		r.bad(pre+"rejects-valid", call+" failed: "+o.Err, e.name, mode, nil, tree, wantJ, got, want.Ok)
 	case o.Ok && want.Ok && !bytes.Equal(o.B, toBytes(want.B)):
-		r.bad(pre+"wrong-bytes", fmt.Sprintf("%s = %v, the documented layout is %v", call, o.B, want.B), e.name, mode, nil, tree, wantJ, got)
+		r.bad(pre+"wrong-bytes", fmt.Sprintf("%s = %v, the documented layout is %v", call, o.B, want.B), e.name, mode, nil, tree, wantJ, got, want.Ok)
 	}
 
 	return o
@@ -387,6 +392,7 @@ func cmdTable(args []string) int {
 			return 2
 		}
 		rep.PerSchema[rw.S]++
+		rep.curRow = line
 		hangRow = string(line[:min(len(line), 400)])
 		if rw.B != nil {
 			rep.Rows++
@@ -430,9 +436,9 @@ func cmdTable(args []string) int {
 			o2 := encodeReal(gv, mode, false)
 			if o.Ok != o2.Ok || !bytes.Equal(o.B, o2.B) {
 				rep.bad("serix:encode:"+s.K+":pointer-vs-value", fmt.Sprintf("Encode(%s %s) gives %v through a pointer and %v by value", e.typ, rw.V, o.B, o2.B),
-					e.name, mode, nil, tree, nil, nil)
+					e.name, mode, nil, tree, nil, nil, true)
 			}
-			if !o.Ok {
+			if !o.Ok || !want.Ok {
 				continue
 			}
 			// C01: twice-encode equality, the second time from a value rebuilt with shuffled map insertion order
@@ -445,7 +451,7 @@ func cmdTable(args []string) int {
 				o3 := encodeReal(gv2, mode, true)
 				if !o3.Ok || !bytes.Equal(o3.B, o.B) {
 					rep.bad("serix:encode:"+s.K+":order-dependent", fmt.Sprintf("Encode(%s %s) gave %v, and %v for the same value built in another insertion order", e.typ, rw.V, o.B, o3.B),
-						e.name, mode, nil, tree, ints(o.B), ints(o3.B))
+						e.name, mode, nil, tree, ints(o.B), ints(o3.B), true)
 				}
 			}
 			// C01: decode of the real bytes gives the canonical value and consumes everything
@@ -499,7 +505,7 @@ func shuffle(s *Schema, tree any, rng *rand.Rand) any {
 		}
 
 		return r
-	case "opt":
+	case "opt", "eptr":
 		o := tree.(map[string]any)
 		if some, _ := o["some"].(bool); some {
 			return map[string]any{"some": true, "v": shuffle(s.T, o["v"], rng)}
@@ -519,9 +525,15 @@ func shuffle(s *Schema, tree any, rng *rand.Rand) any {
 
 // ---------------------------------------------------------------- one call again (replay)
 
+// cmdOne performs the call of a recorded observation again ({"k":"enc","s","m","v"} or {"k":"dec","s","m","b"})
+// and writes the fresh record to -out (NDJSON, one line) for TLC to judge.
 func cmdOne(args []string) int {
+	if len(args) < 1 {
+		return 2
+	}
 	fs := flag.NewFlagSet("w1-one", flag.ExitOnError)
 	catPath := fs.String("cat", "", "")
+	out := fs.String("out", "", "")
 	_ = fs.Parse(args[1:])
 	cat, _, err := loadCatalogue(*catPath)
 	if err != nil {
@@ -534,43 +546,40 @@ func cmdOne(args []string) int {
 		return 2
 	}
 	var in struct {
-		S    string          `json:"s"`
-		Mode int             `json:"mode"`
-		B    *[]int          `json:"b"`
-		V    json.RawMessage `json:"v"`
+		K string          `json:"k"`
+		S string          `json:"s"`
+		M int             `json:"m"`
+		B []int           `json:"b"`
+		V json.RawMessage `json:"v"`
 	}
 	if err := json.Unmarshal(rawIn, &in); err != nil {
 		fmt.Fprintln(os.Stderr, err)
 		return 2
 	}
 	e, s := entries[in.S], cat[in.S]
-	if e == nil {
+	if e == nil || s == nil {
 		fmt.Fprintln(os.Stderr, "unknown schema", in.S)
 		return 2
 	}
-	res := map[string]any{"s": in.S, "mode": in.Mode}
-	if in.B != nil {
-		b := toBytes(*in.B)
-		o := decodeReal(e, s, b, in.Mode)
-		res["b"], res["dec"] = *in.B, o
-		if o.Ok && in.Mode == 1 && o.N <= len(b) {
-			re := encodeReal(o.val, 1, true)
-			res["re"] = map[string]any{"ok": re.Ok, "b": ints(re.B), "err": re.Err}
-		}
+	var rec map[string]any
+	if in.K == "dec" {
+		rec = decRecord(e, s, toBytes(in.B), in.M, "replay")
 	} else {
-		tree := raw(in.V)
-		gv, err := toGo(s, tree, e.typ)
+		rec, _, err = encRecord(e, s, raw(in.V), in.M, true, rand.New(rand.NewSource(1)))
 		if err != nil {
 			fmt.Fprintln(os.Stderr, err)
 			return 2
 		}
-		o := encodeReal(gv, in.Mode, true)
-		res["v"], res["enc"] = tree, map[string]any{"ok": o.Ok, "b": ints(o.B), "err": o.Err, "panic": o.Panic}
-		if o.Ok {
-			res["dec"] = decodeReal(e, s, o.B, in.Mode)
-		}
 	}
-	core.WriteJSON("", res)
+	b, _ := json.Marshal(rec)
+	if *out == "" {
+		fmt.Println(string(b))
+		return 0
+	}
+	if err := os.WriteFile(*out, append(b, '\n'), 0o644); err != nil {
+		fmt.Fprintln(os.Stderr, err)
+		return 2
+	}
 
 	return 0
 }
